@@ -417,12 +417,16 @@ package redis
 //@ spec func oneOpt(a ref, w string) bool = len(a.msgs) == a.index + 1 && strArg(a, 0) && toUpper(argS(a, 0)) == w
 //@ spec func oneOptN(a ref, w string) bool = len(a.msgs) == a.index + 2 && strArg(a, 0) && toUpper(argS(a, 0)) == w && intArg(a, 1)
 
+// expN: how many of the four expiry fields of a SET option are set (EX | PX | EXAT | PXAT are mutually exclusive)
+//@ spec func expN(ex int, px int, exat time.Time, pxat time.Time) int = (ex > 0 ? 1 : 0) + (px > 0 ? 1 : 0) + (isZeroTime(exat) ? 0 : 1) + (isZeroTime(pxat) ? 0 : 1)
+
 //@ func nextSetOptionArguments
 //@ requires args != nil
 //@ assigns args.index
 //@ ensures {C05} !old(hasArg(args, 0)) ==> err == nil && !result0.NX && !result0.XX && !result0.GET && !result0.KEEPTTL && result0.EX == 0 && result0.PX == 0
 //@ ensures {C10} err == nil ==> !(result0.NX && result0.XX)
 //@ ensures {C10} err == nil ==> 0 <= result0.EX && 0 <= result0.PX
+//@ ensures {C10} err == nil ==> expN(result0.EX, result0.PX, result0.EXAT, result0.PXAT) <= 1
 //@ ensures {C05} old(oneOpt(args, "NX")) ==> err == nil && result0.NX && !result0.XX && !result0.GET && !result0.KEEPTTL && result0.EX == 0 && result0.PX == 0
 //@ ensures {C05} old(oneOpt(args, "XX")) ==> err == nil && !result0.NX && result0.XX && !result0.GET && !result0.KEEPTTL && result0.EX == 0 && result0.PX == 0
 //@ ensures {C05} old(oneOpt(args, "GET")) ==> err == nil && !result0.NX && !result0.XX && result0.GET && !result0.KEEPTTL && result0.EX == 0 && result0.PX == 0
@@ -441,6 +445,7 @@ package redis
 //@   invariant {C05} old(oneOptN(args, "PX")) && 1 <= old(argI(args, 1)) && old(argI(args, 1)) <= maxExpireMilliseconds && args.index == old(args.index) + 2 ==> opt.PX == old(argI(args, 1)) * 1000000 && opt.EX == 0 && !opt.NX && !opt.XX && !opt.GET && !opt.KEEPTTL
 //@   invariant {C05} old(oneOptN(args, "EX")) || old(oneOptN(args, "PX")) ==> args.index == old(args.index) || args.index == old(args.index) + 2
 //@   invariant {C10} !(opt.NX && opt.XX) && 0 <= opt.EX && 0 <= opt.PX
+//@   invariant {C10} expN(opt.EX, opt.PX, opt.EXAT, opt.PXAT) <= 1
 //@   invariant {C05} !old(hasArg(args, 0)) ==> args.index == old(args.index) && !opt.NX && !opt.XX && !opt.GET && !opt.KEEPTTL && opt.EX == 0 && opt.PX == 0
 //@   decreases len(args.msgs) - args.index
 
